@@ -52,6 +52,12 @@ const KINDS: &[(&str, bool)] = &[
     ("merge_node_return_node", true),
     ("merge_node_no_return", false),
     ("merge_on_create_on_match_return_node", true),
+    // one statement, several result rows holding the SAME entity, changed differently per row
+    // (every changed entity is returned, so these belong to the part that works today)
+    ("unwind_set_same_node_return_node", true),
+    ("unwind_set_same_rel_return_rel", true),
+    ("match_rels_set_both_ends_return_both", true),
+    ("match_rels_set_all_return_all", true),
 ];
 
 fn kind_index(k: &str) -> usize {
@@ -122,6 +128,19 @@ fn build(ev: &Value, c: &mut Ctx) -> Option<String> {
         "delete_rel" => format!("MATCH ()-[r {{eid: {}}}]->() DELETE r", pick(&c.edge_eids, a)?),
         "detach_delete_node" => format!("MATCH (n {{uid: {}}}) DETACH DELETE n", pick(&c.node_uids, a)?),
         "delete_node" => format!("MATCH (n {{uid: {}}}) DELETE n", pick(&c.node_uids, a)?),
+        // batch update with a repeated key: 3 rows, the same node, a different value per row
+        "unwind_set_same_node_return_node" => format!("UNWIND [{}, {}, {}] AS x MATCH (n {{uid: {}}}) SET n.k = x RETURN n", v + 10, v + 20, v + 30, pick(&c.node_uids, a)?),
+        "unwind_set_same_rel_return_rel" => format!("UNWIND [{}, {}] AS x MATCH ()-[r {{eid: {}}}]->() SET r.w = x RETURN r", v + 10, v + 20, pick(&c.edge_eids, a)?),
+        // one row per relationship: a node with several relationships (or one that is the
+        // end of one and the start of another) comes back in several rows
+        "match_rels_set_both_ends_return_both" => {
+            pick(&c.edge_eids, a)?;
+            format!("MATCH (x)-[r]->(y) SET x.src = {v}, y.dst = {v} RETURN x, y")
+        }
+        "match_rels_set_all_return_all" => {
+            pick(&c.edge_eids, a)?;
+            format!("MATCH (x)-[r]->(y) SET x.src = {v}, r.seen = {v}, y.dst = {v} RETURN x, r, y")
+        }
         "merge_node_return_node" | "merge_node_no_return" | "merge_on_create_on_match_return_node" => {
             // half of the time an existing uid (match), else a fresh one (create)
             let uid = if b % 2 == 0 { pick(&c.node_uids, a).unwrap_or_else(|| fresh()) } else { fresh() };
@@ -213,7 +232,7 @@ impl Scenario for C19 {
         }
     }
     fn rule(&self) -> &'static str {
-        "a run = <=16 write statements from 23 templates (CREATE node/path with RETURN of everything / of a scalar / of only the relationship / without RETURN, MATCH..CREATE relationship, SET property/label, REMOVE property/label, SET on a relationship, DELETE relationship, DELETE / DETACH DELETE node, MERGE with and without ON CREATE/ON MATCH) issued by 1-3 clients through RESP GRAPH.QUERY or HTTP POST /api/query, targets chosen by rank among live uids, with indexer polls, 1-2 restarts (the last one always at the end) and in 1/4 of the runs a kill at the n-th H4 point inside persist_*. Profiles per run: mixed (both front ends, all templates), resp_only, resp_returning (RESP + only templates that RETURN every entity they change — the part that works today; must hold strictly). Non-trivial = >=1 acknowledged statement changed the graph before a restart. Distinct = hash of (front, kind, resolved statement) list + restart/crash positions."
+        "a run = <=16 write statements from 27 templates (incl. 4 whose result holds the same entity in several rows with a different change per row: UNWIND [..] AS x MATCH (n) SET n.k = x RETURN n, the same for a relationship, MATCH (x)-[r]->(y) SET x.src, y.dst [, r.seen] RETURN x, [r,] y over all relationships; CREATE node/path with RETURN of everything / of a scalar / of only the relationship / without RETURN, MATCH..CREATE relationship, SET property/label, REMOVE property/label, SET on a relationship, DELETE relationship, DELETE / DETACH DELETE node, MERGE with and without ON CREATE/ON MATCH) issued by 1-3 clients through RESP GRAPH.QUERY or HTTP POST /api/query, targets chosen by rank among live uids, with indexer polls, 1-2 restarts (the last one always at the end) and in 1/4 of the runs a kill at the n-th H4 point inside persist_*. Profiles per run: mixed (both front ends, all templates), resp_only, resp_returning (RESP + only templates that RETURN every entity they change — the part that works today; must hold strictly). Non-trivial = >=1 acknowledged statement changed the graph before a restart. Distinct = hash of (front, kind, resolved statement) list + restart/crash positions."
     }
     fn real_components(&self) -> Vec<&'static str> {
         vec![
@@ -240,7 +259,16 @@ impl Scenario for C19 {
         ]
     }
     fn required_probes(&self, _tier: Tier) -> Vec<&'static str> {
-        vec!["acked_write", "restart_clean", "restart_after_kill", "recovered_nonempty", "indexer_polled", "resp_returning_run_held"]
+        vec![
+            "acked_write",
+            "restart_clean",
+            "restart_after_kill",
+            "recovered_nonempty",
+            "indexer_polled",
+            "resp_returning_run_held",
+            "resp_statement_changed_one_entity_in_several_rows",
+            "resp_statement_returned_one_node_in_several_rows_with_changes_between",
+        ]
     }
     fn generate(&self, s: &mut Streams, _run_index: u64, _tier: Tier) -> Case {
         let mut case = Case::new("C19");
@@ -382,6 +410,22 @@ impl Scenario for C19 {
                             if !dn.is_empty() || !de.is_empty() {
                                 o.probe("acked_write");
                                 changed_since_restart = true;
+                                if front == 0 && kind.starts_with("unwind_set_same_") {
+                                    o.probe("resp_statement_changed_one_entity_in_several_rows");
+                                }
+                                if front == 0 && kind.starts_with("match_rels_set_") {
+                                    // some node is an end of two relationships => it is in two rows
+                                    let mut deg: BTreeMap<u64, u32> = BTreeMap::new();
+                                    for e in expected.edges.values() {
+                                        *deg.entry(e.src).or_insert(0) += 1;
+                                        if e.dst != e.src {
+                                            *deg.entry(e.dst).or_insert(0) += 1;
+                                        }
+                                    }
+                                    if deg.values().any(|d| *d >= 2) {
+                                        o.probe("resp_statement_returned_one_node_in_several_rows_with_changes_between");
+                                    }
+                                }
                             }
                             let attr: Attr = (front, kind_index(&kind));
                             for id in dn {
